@@ -264,7 +264,7 @@ def main():
     for c in req.get("boundary", []):
         try:
             cls = getattr(_laws, c["cls"])
-            m = cls(c["dim"], **c["params"])
+            m = cls(c["dim"], **{k: (np.array(v, dtype=float) if isinstance(v, list) else v) for k, v in c["params"].items()})
             C = m.C
             out["boundary"].append({"C": tolist(C)})
         except Exception as ex:  # noqa
